@@ -352,3 +352,1580 @@ def rule_args_nullsafe(ctx):
                       'generate_stararg_init_code emits %s(self.%s.entry) on a path on which it has not created that entry (no put_var_gotref before it): the variable still holds '
                       'the NULL it was declared with, and Py_DECREF(NULL) crashes; use the xdecref variant or repeat the creation condition' % (call, name))
     return r
+
+
+# ====================================================================================== C35-INOUT (fourth round)
+"""C35-INOUT — C helpers that work on a reference *slot* (`PyObject **p`): once the helper has given up the reference
+the slot held (a decref of `*p` or of a local loaded from it), it must store a new value (or NULL) into the slot before
+every return.  Otherwise the caller's cleanup releases the same, already released, reference a second time.
+Decided by a forward dataflow over the control-flow graph of each helper body (every preprocessor variant), with the
+finite state  slot in {held, released} x set of locals aliasing the slot's content."""
+from . import pC35 as _c
+
+_DECREF = re.compile(r'\b(?:__Pyx_|Py_)X?DECREF\s*\(')
+_CLEARSET = re.compile(r'\b(?:__Pyx_|Py_)(?:X?CLEAR|X?SETREF|X?DECREF_SET|XDECREF_SET)\s*\(')
+
+
+def _call_args(text, start):
+    """text[start] is just after '(' -> (list of top-level argument texts, index after ')')"""
+    depth, i, cur, out = 1, start, [], []
+    while i < len(text):
+        ch = text[i]
+        if ch in '([{':
+            depth += 1
+        elif ch in ')]}':
+            depth -= 1
+            if depth == 0:
+                out.append(''.join(cur).strip())
+                return out, i + 1
+        if ch == ',' and depth == 1:
+            out.append(''.join(cur).strip())
+            cur = []
+        else:
+            cur.append(ch)
+        i += 1
+    return out, i
+
+
+def _strip_cast(a):
+    a = a.strip()
+    while True:
+        m = re.match(r'^\(\s*(?:struct\s+)?[A-Za-z_]\w*\s*\*+\s*\)\s*(.+)$', a)
+        if m:
+            a = m.group(1).strip()
+            continue
+        if a.startswith('(') and a.endswith(')') and _c._balanced(a[1:-1]):
+            a = a[1:-1].strip()
+            continue
+        return a
+
+
+class SlotClient:
+    """state = (slot, aliases): slot 'held' | 'released'; aliases = frozenset of locals equal to the slot's current content."""
+
+    def __init__(self, param):
+        self.p = param
+        self.deref = re.compile(r'\*\s*%s\b(?!\s*\[)' % re.escape(param))
+        self.store = re.compile(r'(?<![=!<>+\-*/&|^])\*\s*%s\s*=(?!=)\s*(.*)$' % re.escape(param), re.S)
+        self.load = re.compile(r'(?<![\w.>])([A-Za-z_]\w*)\s*=(?!=)\s*(?:\([^()]*\)\s*)?\*\s*%s\s*$' % re.escape(param))
+        self.passed = re.compile(r'[(,]\s*%s\s*[,)]' % re.escape(param))
+
+    def is_slot(self, arg, aliases):
+        a = _strip_cast(arg)
+        if self.deref.fullmatch(a) or re.fullmatch(r'%s\s*\[\s*0\s*\]' % re.escape(self.p), a):
+            return True
+        return a in aliases
+
+    def transfer(self, kind, text, state):
+        slot, aliases = state
+        if kind == 'ret':
+            return [state]
+        # several simple expressions may share one statement through the comma operator / declarations: handle each clause
+        for clause in ([text] if kind == 'br' else self.clauses(text)):
+            slot, aliases = self.clause(clause, slot, aliases)
+        return [(slot, aliases)]
+
+    @staticmethod
+    def clauses(text):
+        out, depth, cur = [], 0, []
+        for ch in text:
+            if ch in '([{':
+                depth += 1
+            elif ch in ')]}':
+                depth -= 1
+            if ch == ',' and depth == 0:
+                out.append(''.join(cur))
+                cur = []
+            else:
+                cur.append(ch)
+        out.append(''.join(cur))
+        return out
+
+    def clause(self, text, slot, aliases):
+        # releases / clearing stores through the refcount macros
+        for m in _CLEARSET.finditer(text):
+            args, _ = _call_args(text, m.end())
+            if args and self.is_slot(args[0], frozenset()):
+                slot, aliases = 'held', frozenset()          # the macro stores a new value (or NULL) into the slot
+        for m in _DECREF.finditer(text):
+            args, _ = _call_args(text, m.end())
+            if args and self.is_slot(args[0], aliases):
+                slot = 'released'
+        # the slot handed to another function: the callee maintains it
+        if self.passed.search(text):
+            slot, aliases = 'held', frozenset()
+        m = self.store.search(text)
+        if m:
+            rhs = _strip_cast(m.group(1))
+            if rhs not in aliases:                            # storing the old pointer back does not repair the slot
+                slot = 'held'
+                aliases = frozenset()
+            return slot, aliases
+        m = self.load.search(text.strip())
+        if m:
+            return slot, aliases | {m.group(1)}
+        # a plain assignment to an alias ends the alias
+        m = re.match(r'^(?:[A-Za-z_][\w\s\*]*?\s+\**)?([A-Za-z_]\w*)\s*=(?!=)', text.strip())
+        if m and m.group(1) in aliases:
+            aliases = aliases - {m.group(1)}
+        return slot, aliases
+
+
+def inout_problems(body, param):
+    """-> (analysed: bool, [description of a return reached with a released slot])"""
+    variants = _c.pp_variants(body)
+    if variants is None:
+        return False, []
+    probs, seen = [], set()
+    written = _c.assigned_names(body)
+
+    def stable(key):
+        ids = set(_c.IDENT.findall(key))
+        return bool(ids) and not (ids & written) and '(' not in key
+    for label, text in variants:
+        cfg = _c.CFG(text)
+        cl = SlotClient(param)
+        for node, (slot, aliases) in _c.run_dataflow(cfg, ('held', frozenset()), cl.transfer, stable=stable):
+            if slot == 'released':
+                what = ('`return %s`' % node.text) if node.text else 'the end of the function'
+                if (what,) not in seen:
+                    seen.add((what,))
+                    probs.append('%s [%s]' % (what, label))
+    return True, probs
+
+
+INOUT_POSITIVE = '''{
+    PyObject *old = *slot;
+    PyObject *res = NULL;
+    if (ok(old)) res = convert(old);
+    if (res) *slot = res;
+    Py_DECREF(old);
+    return res ? 0 : -1;
+}'''
+INOUT_NEGATIVE = '''{
+    PyObject *old = *slot;
+    PyObject *res;
+    if (!ok(old)) goto bad;
+    res = convert(old);
+    if (!res) goto bad;
+    *slot = res;
+    Py_DECREF(old);
+    return 0;
+bad:
+    Py_DECREF(old);
+    *slot = NULL;
+    return -1;
+}'''
+
+
+def rule_inout(ctx):
+    r = Rule('C35-INOUT', 'a C helper that releases the reference held in a `PyObject **` slot (decref of *p or of a local loaded from it) stores a new value or NULL '
+                          'into the slot before every return (all preprocessor variants, every path of the control-flow graph)', floor=4)
+    cat = ctx.cat
+    for name in sorted(cat.decls):
+        for d in cat.decls[name]:
+            if d.kind != 'func' or not d.body or d.params is None:
+                continue
+            for ptype, pname in zip(d.param_types(), d.param_names()):
+                if not pname or ptype != 'PyObject * *':
+                    continue
+                body = d.body
+                # only helpers that can release the slot's reference at all
+                aliases = set(re.findall(r'(?<![\w.>])([A-Za-z_]\w*)\s*=(?!=)\s*(?:\([^()]*\)\s*)?\*\s*%s\b' % re.escape(pname), body))
+                cand = False
+                for m in _DECREF.finditer(body):
+                    args, _ = _call_args(body, m.end())
+                    if args and (re.fullmatch(r'\*\s*%s' % re.escape(pname), _strip_cast(args[0])) or _strip_cast(args[0]) in aliases):
+                        cand = True
+                if not cand:
+                    continue
+                key = '%s:%s:%s' % (d.file, name, pname)
+                if '{{' in body or '{%' in body:
+                    r.info('%s: Tempita-templated body, not analysed' % key)
+                    continue
+                try:
+                    ok, probs = inout_problems(body, pname)
+                except AnalysisError as e:
+                    r.info('%s: not analysed (%s)' % (key, e))
+                    continue
+                if not ok:
+                    r.info('%s: too many preprocessor variants, not analysed' % key)
+                    continue
+                r.inst(key, sample='%s(... PyObject **%s ...): releases the slot content; every return checked' % (name, pname))
+                if probs:
+                    r.violate(key, 'Cython/Utility/' + d.file, d.line,
+                              '%s gives up the reference stored in *%s (decref) but reaches %s without storing a new value or NULL into *%s: the slot keeps a pointer whose reference '
+                              'is gone, and the caller\'s cleanup of that slot releases it a second time (object freed while still referenced)' % (name, pname, '; '.join(probs[:3]), pname))
+    _, p1 = inout_problems(INOUT_POSITIVE, 'slot')
+    _, p2 = inout_problems(INOUT_NEGATIVE, 'slot')
+    r.positive_control(bool(p1) and not p2, 'slot stored only when the conversion succeeded, old value decref\'ed on both paths / the goto-bad form that stores NULL')
+    return r
+
+
+# ====================================================================================== C35-REFTAB (fourth round)
+"""C35-REFTAB — the reference-count emission table agrees from the writer API down to the C macros:
+
+ (api)    CCodeWriter.put_<op> delegates to type.get_<op>_code and put_var_<op> to put_<op> for the SAME op
+          (op in [x]incref, [x]decref, [x]decref_clear, [x]decref_set, [x]gotref, [x]giveref);
+ (macro)  every macro of the family __Pyx_[Py_][X]{INCREF,DECREF,GOTREF,GIVEREF,CLEAR,DECREF_SET} of Refnanny.proto, in both
+          configurations (CYTHON_REFNANNY on / off), has the effect its name promises: symbolic execution of the macro body
+          (nested family macros expanded) on r in {NULL, object}: one acquire / release / got / give of the OLD value, routed
+          through the nanny exactly when the nanny is on and the macro is not a __Pyx_Py_ one, the X variants do nothing on NULL,
+          CLEAR / *_SET store NULL / v into r BEFORE the old value is released;
+ (type)   what PyObjectType.get_<op>_code returns (evaluated over nanny x clear_before_decref with the decision-table
+          evaluator, _get_decref_code inlined) has the effect of <op> on the variable when its text is executed with those
+          macro effects.
+"""
+from .pC17 import parse_body as _parse_c, as_list as _as_list
+
+OPS = ('incref', 'decref', 'gotref', 'giveref')
+API_OP = re.compile(r'^(x?)(incref|decref|gotref|giveref)(_clear|_set)?$')
+MACRO_NAME = re.compile(r'^__Pyx_(Py_)?(X?)(INCREF|DECREF|GOTREF|GIVEREF|CLEAR|DECREF_SET)$')
+BASE_OPS = {      # CPython's own macros: (event kind, null-safe, stores NULL first)
+    'Py_INCREF': ('acquire', False), 'Py_XINCREF': ('acquire', True), 'Py_DECREF': ('release', False), 'Py_XDECREF': ('release', True),
+    'Py_NewRef': ('acquire', False), 'Py_XNewRef': ('acquire', True),
+}
+NANNY_FIELD = {'INCREF': 'acquire', 'DECREF': 'release', 'GOTREF': 'got', 'GIVEREF': 'give'}
+
+
+class MacroExec:
+    """Symbolic execution of refcount macro text on variables holding 'NULL' | 'R0' (the old, non-NULL object) | 'V' (the new value)."""
+
+    def __init__(self, cat, nanny_on):
+        self.cat, self.nanny_on = cat, nanny_on
+
+    def pick(self, name):
+        ds = [d for d in self.cat.decls.get(name, []) if d.kind == 'macro' and d.file == 'ModuleSetupCode.c' and d.section.name.startswith('Refnanny')]
+        out = []
+        for d in ds:
+            conds = ' '.join(d.conds or ())
+            if 'CYTHON_REFNANNY' in conds:
+                is_else = 'else' in conds
+                if is_else == self.nanny_on:
+                    continue
+            out.append(d)
+        if len(out) > 1:
+            raise AnalysisError('C35-REFTAB: %d definitions of %s for CYTHON_REFNANNY=%d' % (len(out), name, self.nanny_on))
+        return out[0] if out else None
+
+    def value(self, expr, env):
+        e = _strip_cast(expr)
+        if e in ('NULL', '0'):
+            return 'NULL'
+        if re.fullmatch(r'[A-Za-z_]\w*', e):
+            if e in env:
+                return env[e]
+            return None
+        return None
+
+    def run(self, text, env, events, depth=0):
+        if depth > 6:
+            raise AnalysisError('C35-REFTAB: macro nesting deeper than 6')
+        self.block(_parse_c('{' + text + ';}'), env, events, depth)
+
+    def block(self, stmts, env, events, depth):
+        for st in stmts:
+            self.stmt(st, env, events, depth)
+
+    def truth(self, cond, env):
+        key, pol = _c.cond_key(cond)
+        if key in ('0', '1'):
+            return (key == '1') == pol
+        v = self.value(key, env)
+        if v is None or v == 'V':
+            raise AnalysisError('C35-REFTAB: condition %r of a refcount macro is not decidable on the abstract values' % cond)
+        return (v != 'NULL') == pol
+
+    def stmt(self, st, env, events, depth):
+        k = st.kind
+        if k == 'block':
+            return self.block(st.body, env, events, depth)
+        if k == 'do':
+            key, pol = _c.cond_key(st.text)
+            if not (key == '0' and pol):
+                raise AnalysisError('C35-REFTAB: do-while with condition %r in a refcount macro' % st.text)
+            return self.block(_as_list(st.body), env, events, depth)
+        if k == 'if':
+            if self.truth(st.text, env):
+                return self.block(_as_list(st.body), env, events, depth)
+            if st.orelse is not None:
+                return self.block(_as_list(st.orelse), env, events, depth)
+            return
+        if k != 'simple':
+            raise AnalysisError('C35-REFTAB: statement kind %s in a refcount macro' % k)
+        t = st.text.strip()
+        if not t:
+            return
+        m = re.match(r'^(?:PyObject\s*\*\s*)?(\(*\s*[A-Za-z_]\w*\s*\)*)\s*=(?!=)\s*(.+)$', t)
+        if m and _c._balanced(m.group(1)) and self.value(m.group(2), env) is not None:
+            tgt = _strip_cast(m.group(1))
+            v = self.value(m.group(2), env)
+            env[tgt] = v
+            events.append(('store', tgt, v))
+            return
+        m = re.match(r'^(__Pyx_RefNanny\s*->\s*\w+|[A-Za-z_]\w*)\s*\(', t)
+        if not m:
+            raise AnalysisError('C35-REFTAB: statement %r in a refcount macro is not modelled' % t[:50])
+        args, end = _call_args(t, m.end())
+        if t[end:].strip():
+            raise AnalysisError('C35-REFTAB: trailing text after a call in %r' % t[:50])
+        name = ''.join(m.group(1).split())
+        if name.startswith('__Pyx_RefNanny->'):
+            field = name.split('->')[1]
+            if field not in NANNY_FIELD or len(args) != 3:
+                raise AnalysisError('C35-REFTAB: nanny call %s is not modelled' % name)
+            v = self.value(args[1], env)
+            events.append((NANNY_FIELD[field], v, 'nanny') if v != 'NULL' else ('null-arg', field, 'nanny'))
+            return
+        if name in BASE_OPS:
+            kind, safe = BASE_OPS[name]
+            v = self.value(args[0], env)
+            if v == 'NULL':
+                if not safe:
+                    events.append(('null-deref', name, 'plain'))
+            else:
+                events.append((kind, v, 'plain'))
+            return
+        if name in ('Py_CLEAR', 'Py_XCLEAR'):
+            tgt = _strip_cast(args[0])
+            v = self.value(tgt, env)
+            env[tgt] = 'NULL'
+            events.append(('store', tgt, 'NULL'))
+            if v != 'NULL':
+                events.append(('release', v, 'plain'))
+            return
+        d = self.pick(name)
+        if d is None:
+            raise AnalysisError('C35-REFTAB: %s is neither a family macro of Refnanny.proto nor a known CPython macro' % name)
+        if len(d.params or []) != len(args):
+            raise AnalysisError('C35-REFTAB: %s called with %d arguments' % (name, len(args)))
+        body = d.body or ''
+        declared = set(re.findall(r'PyObject\s*\*\s*([A-Za-z_]\w*)\s*=', body))
+        for p, a in zip(d.params, args):
+            if _strip_cast(a) in declared:
+                raise AnalysisError('C35-REFTAB: argument %s of %s is captured by a local of the macro' % (a, name))
+            body = re.sub(r'\b%s\b' % re.escape(p), '(%s)' % a, body)
+        self.run(body, env, events, depth + 1)
+
+
+def expected_effect(x, op, via, ordered=True):
+    """-> function(events on R0 input, final R, events on NULL input, final R for NULL) -> problem text or None"""
+    kind = {'INCREF': 'acquire', 'DECREF': 'release', 'GOTREF': 'got', 'GIVEREF': 'give', 'CLEAR': 'release', 'DECREF_SET': 'release'}[op]
+    final = {'CLEAR': 'NULL', 'DECREF_SET': 'V'}.get(op, 'R0')
+
+    def check(ev_obj, fin_obj, ev_null, fin_null):
+        core = [e for e in ev_obj if e[0] != 'store']
+        want = [] if (via == 'none') else [(kind, 'R0', via)]
+        if core != want:
+            return 'on a non-NULL object it performs %s instead of %s' % (core or 'nothing', want or 'nothing')
+        if fin_obj != final:
+            return 'it leaves the variable as %s instead of %s' % (fin_obj, final)
+        if op in ('CLEAR', 'DECREF_SET') and want and ordered:
+            order = [e[0] for e in ev_obj if e[0] == 'release' or (e[0] == 'store' and e[1] == 'R')]
+            if order[:1] != ['store']:
+                return 'it releases the old value before the variable is overwritten (a destructor run by the decref can still reach the dead object through the variable)'
+        if x:
+            bad = [e for e in ev_null if e[0] != 'store']
+            if bad:
+                return 'the NULL-safe variant touches a NULL pointer: %s' % bad
+            if op in ('CLEAR', 'DECREF_SET') and fin_null != ('NULL' if op == 'CLEAR' else 'V'):
+                return 'on NULL it leaves the variable as %s' % fin_null
+        return None
+    return check
+
+
+def run_effect(ex, text):
+    out = []
+    for rv in ('R0', 'NULL'):
+        env, ev = {'R': rv, 'V': 'V'}, []
+        ex.run(text, env, ev)
+        out.append((ev, env['R']))
+    return out[0][0], out[0][1], out[1][0], out[1][1]
+
+
+def type_method_text(ix, cls, name, point):
+    """Text returned by PyObjectType.<name> for one domain point, placeholders R (the variable) and V (the new value); None when the method is absent."""
+    got = ix.find_method(cls, name)
+    if got is None:
+        return None
+    fn = got[1]
+
+    def run(fn, env, depth=0):
+        res = []
+        oracle = lambda p: point.get(p, NOTFOUND) if p in point else NOTFOUND
+        for p in Evaluator(oracle, what='%s.%s' % (cls.name, fn.name)).run_function(fn, env):
+            if p.kind != 'return':
+                continue
+            v = p.ret
+            if isinstance(v, Call) and isinstance(v.recv, Obj) and v.recv.path == 'self' and depth < 3:
+                g = ix.find_method(cls, v.name)
+                if g is None:
+                    raise AnalysisError('C35-REFTAB: %s.%s delegates to unknown %s' % (cls.name, fn.name, v.name))
+                f2 = g[1]
+                params = [a.arg for a in f2.args.args][1:]
+                env2 = {}
+                for pn, a in zip(params, v.args):
+                    env2[pn] = a
+                env2.update(v.kwargs)
+                defaults = f2.args.defaults
+                for pn, dflt in zip(params[len(params) - len(defaults):], defaults):
+                    if pn not in env2 and isinstance(dflt, ast.Constant):
+                        env2[pn] = dflt.value
+                res.extend(run(f2, env2, depth + 1))
+            else:
+                res.append(v)
+        return res
+    params = [a.arg for a in fn.args.args][1:]
+    env = {}
+    for pn in params:
+        if pn in point:
+            env[pn] = point[pn]
+    for pn, dflt in zip(params[len(params) - len(fn.args.defaults):], fn.args.defaults):
+        if pn not in env and pn not in ('cname', 'rhs_cname') and isinstance(dflt, ast.Constant):
+            env[pn] = dflt.value if pn not in point else point[pn]
+    env['cname'] = Obj('cname', True)
+    if 'rhs_cname' in params:
+        env['rhs_cname'] = Obj('rhs_cname', True)
+    texts = set()
+    for v in run(fn, env):
+        if isinstance(v, str):
+            texts.add(v)
+            continue
+        if not isinstance(v, Str):
+            raise AnalysisError('C35-REFTAB: %s.%s returns %r, not emitted text' % (cls.name, name, v))
+        parts = []
+        for p in v.parts:
+            if isinstance(p, str):
+                parts.append(p)
+            elif isinstance(p, Obj) and p.path == 'cname':
+                parts.append('R')
+            elif isinstance(p, Obj) and p.path == 'rhs_cname':
+                parts.append('V')
+            elif isinstance(p, Call) and p.name in ('as_pyobject',) and p.args and isinstance(p.args[0], Obj) and p.args[0].path == 'cname':
+                parts.append('R')
+            else:
+                raise AnalysisError('C35-REFTAB: %s.%s: opaque piece %r in the emitted text' % (cls.name, name, p))
+        texts.add(''.join(parts))
+    if len(texts) != 1:
+        raise AnalysisError('C35-REFTAB: %s.%s returns %d different texts for %s' % (cls.name, name, len(texts), point))
+    return texts.pop()
+
+
+REFTAB_POSITIVE = 'do { PyObject *tmp = (PyObject *) r; __Pyx_XDECREF(tmp); r = v; } while (0)'
+
+
+def rule_reftab(ctx):
+    ix, cat = ctx.index, ctx.cat
+    r = Rule('C35-REFTAB', 'reference-count emission table: put_<op> -> get_<op>_code -> __Pyx_<OP> agree by operation, and every macro of the family has the effect of its name '
+                           '(NULL-safety of the X variants, nanny routing, store-before-release of CLEAR/_SET) in both CYTHON_REFNANNY configurations', floor=60)
+    # ---------------------------------------------------------------- (api)
+    writer = ix.cls('Code', 'CCodeWriter')
+    for mname, fn in sorted(writer.methods.items()):
+        m = re.match(r'^put_(var_)?(.+)$', mname)
+        if not m or not API_OP.match(m.group(2)):
+            continue
+        op, is_var = m.group(2), bool(m.group(1))
+        key = 'api:CCodeWriter.%s' % mname
+        used = set()
+        for n in ast.walk(fn):
+            if isinstance(n, ast.Attribute):
+                if is_var:
+                    m2 = re.match(r'^put_(.+)$', n.attr)
+                    if m2 and API_OP.match(m2.group(1)) and isinstance(n.value, ast.Name) and n.value.id == 'self':
+                        used.add(m2.group(1))
+                else:
+                    m2 = re.match(r'^get_(.+)_code$', n.attr)
+                    if m2 and API_OP.match(m2.group(1)):
+                        used.add(m2.group(1))
+        r.inst(key, sample='%s delegates to %s' % (mname, ', '.join(sorted(used)) or '-'))
+        if not used:
+            r.violate(key, 'Cython/Compiler/Code.py', fn.lineno, 'CCodeWriter.%s does not delegate to %s for the operation `%s`: the reference-count operation is not emitted'
+                      % (mname, 'self.put_%s' % op if is_var else 'type.get_%s_code' % op, op))
+        elif used != {op}:
+            r.violate(key, 'Cython/Compiler/Code.py', fn.lineno, 'CCodeWriter.%s emits the operation(s) %s instead of `%s`: callers asking for %s get %s (NULL-safety / clearing / direction of the count differ)'
+                      % (mname, ', '.join(sorted(used)), op, op, ' / '.join(sorted(used - {op}))))
+    # ---------------------------------------------------------------- (macro)
+    effects = {}
+    n_macros = 0
+    for name in sorted(cat.decls):
+        mm = MACRO_NAME.match(name)
+        if not mm:
+            continue
+        for nanny_on in (True, False):
+            ex = MacroExec(cat, nanny_on)
+            d = ex.pick(name)
+            if d is None:
+                continue
+            n_macros += 1
+            key = 'macro:%s:%s' % (name, 'refnanny' if nanny_on else 'plain')
+            plain_only, x, op = bool(mm.group(1)), bool(mm.group(2)), mm.group(3)
+            via = 'plain' if (plain_only or not nanny_on) else 'nanny'
+            if op in ('GOTREF', 'GIVEREF') and not nanny_on:
+                via = 'none'
+            call = '%s(%s)' % (name, ', '.join(['R', 'V'][:len(d.params or [])]))
+            try:
+                eff = run_effect(ex, call)
+            except AnalysisError as e:
+                raise AnalysisError('%s (%s)' % (e, key))
+            r.inst(key, sample='%s: %s' % (key, [e for e in eff[0] if e[0] != 'store']))
+            prob = expected_effect(x, op, via)(*eff)
+            if prob:
+                r.violate(key, 'Cython/Utility/ModuleSetupCode.c', d.line, '%s (CYTHON_REFNANNY=%d): %s' % (name, nanny_on, prob))
+    if n_macros < 20:
+        raise AnalysisError('C35-REFTAB: only %d macro definitions of the refcount family found in Refnanny.proto' % n_macros)
+    # ---------------------------------------------------------------- (type)
+    cls = ix.cls('PyrexTypes', 'PyObjectType')
+    for mname in sorted(n for c in ix.mro(cls) for n in c.methods):
+        m = re.match(r'^get_(.+)_code$', mname)
+        if not m or not API_OP.match(m.group(1)):
+            continue
+        got = ix.find_method(cls, mname)
+        if got is None or got[0].name != 'PyObjectType':
+            continue
+        am = API_OP.match(m.group(1))
+        x, base, suffix = bool(am.group(1)), am.group(2), am.group(3) or ''
+        op = {'': base.upper(), '_clear': 'CLEAR', '_set': 'DECREF_SET'}[suffix]
+        params = [a.arg for a in got[1].args.args]
+        for nanny in ((True, False) if 'nanny' in params else (True,)):
+            for cbd in ((True, False) if 'clear_before_decref' in params else (False,)):
+                point = {'nanny': nanny, 'clear_before_decref': cbd, 'have_gil': True}
+                key = 'type:PyObjectType.%s:nanny=%d%s' % (mname, nanny, ':clear_first=%d' % cbd if 'clear_before_decref' in params else '')
+                text = type_method_text(ix, cls, mname, point)
+                r.inst(key, sample='%s -> %s' % (key, text))
+                for nanny_on in (True, False):
+                    ex = MacroExec(cat, nanny_on)
+                    try:
+                        eff = run_effect(ex, text)
+                    except AnalysisError as e:
+                        r.violate(key, 'Cython/Compiler/PyrexTypes.py', got[1].lineno, 'PyObjectType.%s (%s) returns `%s`, which the macro model cannot execute: %s' % (mname, point, text, e))
+                        break
+                    via = 'plain' if (not nanny or not nanny_on) else 'nanny'
+                    if base in ('gotref', 'giveref') and not nanny_on:
+                        via = 'none'
+                    # Py_CLEAR is NULL-safe: a non-nanny clear may be stronger than asked
+                    prob = expected_effect(x, op, via, ordered=(cbd if suffix == '_clear' else True))(*eff)
+                    if prob:
+                        r.violate(key, 'Cython/Compiler/PyrexTypes.py', got[1].lineno,
+                                  'PyObjectType.%s(nanny=%s%s) returns `%s` (R = the variable, V = the new value); with CYTHON_REFNANNY=%d %s'
+                                  % (mname, nanny, ', clear_before_decref=%s' % cbd if 'clear_before_decref' in params else '', text, nanny_on, prob))
+                        break
+    # ---------------------------------------------------------------- positive control
+    ex = MacroExec(cat, True)
+    eff = run_effect(ex, REFTAB_POSITIVE.replace('r', 'R').replace(' v;', ' V;').replace('PyObject', 'PyObject').replace('R = V', 'R = V'))
+    r.positive_control(expected_effect(True, 'DECREF_SET', 'nanny')(*eff) is not None, 'a _SET macro that releases the old value before it stores the new one')
+    return r
+
+
+# ====================================================================================== C35-LIFE / C35-OVR (fourth round)
+"""C35-LIFE — within one generator method, X.free_temps(code) is only reached after X was disposed of
+(generate_disposal_code / generate_post_assignment_code / handed to generate_assignment_code) on every path since its
+evaluation: freeing the temp NAME of a value whose reference was never released leaks the reference (and hands the
+still-occupied temp to the next user).  Decides the ORDER E -> D -> F that G1 (existence per class) leaves open.
+
+C35-OVR — a node class that overrides generate_disposal_code / free_temps (so the inherited walk over `subexprs` does
+not run) must handle, in the override, every sub-expression self.X its own evaluation method evaluates explicitly."""
+from ..engine import pyflow as _pyflow
+from ..engine.pyindex import walk_no_nested as _walk_no_nested
+from .gen2 import recv_key as _recv_key, loop_aliases as _loop_aliases, EVAL as _EVAL, DISP as _DISP, FREE as _FREE, TRANSFER as _TRANSFER
+from .gen import gen_functions as _gen_functions
+
+
+def life_problems(fn):
+    """receivers X for which some path reaches X.free_temps() after X.generate_evaluation_code() without a disposal in between"""
+    recvs = set()
+    aliases = _loop_aliases(fn)
+    for c in _walk_no_nested(fn):
+        if isinstance(c, ast.Call) and isinstance(c.func, ast.Attribute) and c.func.attr in _EVAL and len(c.args) == 1 and not c.keywords:
+            k = _recv_key(c.func.value)
+            if k and k != 'self' and k not in aliases:
+                recvs.add(k)
+    freed = {_recv_key(c.func.value) for c in _walk_no_nested(fn)
+             if isinstance(c, ast.Call) and isinstance(c.func, ast.Attribute) and c.func.attr in _FREE}
+    recvs &= freed                      # only receivers the method also frees carry an obligation
+    out = {}
+    for recv in sorted(recvs):
+        def tr(n, state, recv=recv):
+            s = set(state)
+            for c in _pyflow.calls_in(n):
+                if not isinstance(c.func, ast.Attribute):
+                    if isinstance(c.func, ast.Name) and c.func.id in ('error', 'internal_error'):
+                        s.add('ERR')
+                    continue
+                a = c.func.attr
+                if _recv_key(c.func.value) == recv:
+                    if a in _EVAL and len(c.args) == 1 and not c.keywords:
+                        s.add('E')
+                        s.discard('D')
+                    elif a in _DISP:
+                        s.add('D')
+                    elif a in _FREE:
+                        if 'E' in s and 'D' not in s and 'ERR' not in s:
+                            s.add(('BAD', c.lineno))
+                        s.discard('E')
+                        s.discard('D')
+                if a in _TRANSFER and c.args and _recv_key(c.args[0]) == recv:
+                    s.add('D')
+                # the value handed to another generator method of the same node (self.generate_xyz(..., X, ...)) may be disposed of there
+                if a.startswith('generate_') and a not in _EVAL | _DISP | _FREE and any(_recv_key(x) == recv for x in c.args):
+                    s.add('D')
+            return frozenset(s)
+        try:
+            o = _pyflow.Flow(tr).run(fn)
+        except _pyflow.TooManyStates:
+            out[recv] = None
+            continue
+        bad = sorted({f[1] for st in (o.normal | o.returns) for f in st if isinstance(f, tuple) and f and f[0] == 'BAD'})
+        out[recv] = bad
+    return out
+
+
+def confirm_life(fn, recv):
+    """Exact re-check over all truth assignments of the method's atomic tests (atoms whose names are written more than once, loops
+    around the protocol calls, or more than 10 atoms -> None)."""
+    def mark(c):
+        if not isinstance(c.func, ast.Attribute):
+            return None
+        a = c.func.attr
+        if _recv_key(c.func.value) == recv:
+            if a in _EVAL and len(c.args) == 1 and not c.keywords:
+                return 'E'
+            if a in _DISP:
+                return 'D'
+            if a in _FREE:
+                return 'F'
+        if a in _TRANSFER and c.args and _recv_key(c.args[0]) == recv:
+            return 'D'
+        if a.startswith('generate_') and a not in _EVAL | _DISP | _FREE and any(_recv_key(x) == recv for x in c.args):
+            return 'D'
+        return None
+    try:
+        t = Table(fn.body, mark, seq=True)
+        if len(t.atoms) > 10:
+            return None
+        stores = {}
+        for n in _walk_no_nested(fn):
+            if isinstance(n, ast.Name) and isinstance(n.ctx, ast.Store):
+                stores[n.id] = stores.get(n.id, 0) + 1
+        for a in t.atoms:
+            for nm in re.findall(r'[A-Za-z_]\w*', a):
+                if stores.get(nm, 0) > 1:
+                    return None
+        for val, marks in t.rows():
+            st = None
+            for mk in marks:
+                if mk == 'E':
+                    st = 'E'
+                elif mk == 'D' and st == 'E':
+                    st = 'D'
+                elif mk == 'F':
+                    if st == 'E':
+                        return True
+                    st = None
+        return False
+    except AnalysisError:
+        return None
+
+
+LIFE_POSITIVE = '''
+def generate_assignment_code(self, rhs, code):
+    self.obj.generate_evaluation_code(code)
+    if self.fast:
+        code.putln("x")
+        self.obj.generate_disposal_code(code)
+    self.obj.free_temps(code)
+'''
+
+
+def rule_life(ctx):
+    r = Rule('C35-LIFE', 'X.free_temps(code) is reached only after X was disposed of (disposal / post-assignment / ownership transfer) on every path since X.generate_evaluation_code(code) in the same method', floor=44)
+    for m, qn, owner, fn in _gen_functions(ctx):
+        if m.short == 'Code':
+            continue
+        for recv, bad in life_problems(fn).items():
+            key = '%s.%s:%s' % (m.short, qn, recv)
+            if bad is None:
+                r.info('%s: state explosion' % key)
+                continue
+            # only receivers the method also frees are obligations
+            if not any(isinstance(c, ast.Call) and isinstance(c.func, ast.Attribute) and c.func.attr in _FREE and _recv_key(c.func.value) == recv for c in _walk_no_nested(fn)):
+                continue
+            r.inst(key, sample='%s evaluates and frees %s' % (m.short + '.' + qn, recv))
+            if bad:
+                # the flow engine correlates equal test texts only; confirm on the exact boolean decision table of the method
+                conf = confirm_life(fn, recv)
+                if conf is None:
+                    r.info('%s: a path frees before disposal in the flow engine, but the tests of the method cannot be tabulated; not reported' % key)
+                    continue
+                if not conf:
+                    continue
+                r.violate(key + ':free-before-disposal', m.rel, bad[0],
+                          '%s evaluates %s and on some path calls %s.free_temps(code) (line %d) without generate_disposal_code / generate_post_assignment_code / an ownership transfer in between: '
+                          'the temporary holding the value is handed back while it still owns its reference, which is never released' % (qn, recv, recv, bad[0]))
+    pc = ast.parse(LIFE_POSITIVE).body[0]
+    r.positive_control(bool(life_problems(pc).get('self.obj')), 'disposal only on one branch before free_temps')
+    return r
+
+
+def _handled(fn, kinds_attr, ix, cls, depth=0):
+    """receivers self.X for which fn (or a method of self it calls, one level) calls one of kinds_attr; plus 'generic' when it
+    delegates to the inherited walk over subexprs"""
+    out, generic = set(), False
+    aliases = _loop_aliases(fn)
+    for c in _walk_no_nested(fn):
+        if not (isinstance(c, ast.Call) and isinstance(c.func, ast.Attribute)):
+            continue
+        a = c.func.attr
+        k = _recv_key(c.func.value)
+        if a in kinds_attr:
+            if isinstance(c.func.value, ast.Call) and isinstance(c.func.value.func, ast.Name) and c.func.value.func.id == 'super':
+                generic = True
+            elif k in ('ExprNode', 'Node') or (k and k[:1].isupper() and c.args and isinstance(c.args[0], ast.Name) and c.args[0].id == 'self'):
+                generic = True
+            elif k and k != 'self':
+                out.add(k)
+                for k2 in aliases.get(k, ()):
+                    if k2:
+                        out.add(k2)
+                    else:
+                        out.add('*')
+        elif a in ('generate_subexpr_disposal_code', 'free_subexpr_temps') and k == 'self':
+            generic = True
+        elif a in _TRANSFER and c.args and _recv_key(c.args[0]):
+            out.add(_recv_key(c.args[0]))
+        elif k == 'self' and depth < 1:
+            got = ix.find_method(cls, a)
+            if got is not None and got[1] is not fn:
+                o2, g2 = _handled(got[1], kinds_attr, ix, cls, depth + 1)
+                out |= o2
+                generic = generic or g2
+    return out, generic
+
+
+def rule_ovr(ctx):
+    ix = ctx.index
+    r = Rule('C35-OVR', 'a node class that overrides generate_disposal_code / free_temps handles every sub-expression its own evaluation method evaluates explicitly '
+                        '(the inherited walk over subexprs does not run for it)', floor=8)
+    base = ix.cls('ExprNodes', 'ExprNode')
+    for cls in sorted(ix.subclasses(base), key=lambda c: (c.module.short, c.name)):
+        ev = ix.find_method(cls, 'generate_evaluation_code')
+        if ev is None or ev[0].name == 'ExprNode':
+            continue
+        evaluated = {}
+        aliases = _loop_aliases(ev[1])
+        for c in _walk_no_nested(ev[1]):
+            if isinstance(c, ast.Call) and isinstance(c.func, ast.Attribute) and c.func.attr in _EVAL and len(c.args) == 1 and not c.keywords:
+                k = _recv_key(c.func.value)
+                if k and k.startswith('self.') and k.count('.') == 1 and k not in aliases:
+                    evaluated[k] = c
+        if not evaluated:
+            continue
+        same_method_d, _ = _handled(ev[1], _DISP, ix, cls, depth=1)
+        same_method_f, _ = _handled(ev[1], _FREE, ix, cls, depth=1)
+        sub = ix.class_list_attr(cls, 'subexprs')
+        subexprs = set(sub[1]) if sub and sub[1] else set()
+        for what, names, same in (('generate_disposal_code', _DISP, same_method_d), ('free_temps', _FREE, same_method_f)):
+            ov = ix.find_method(cls, what)
+            if ov is None or ov[0].name in ('ExprNode', 'Node'):
+                continue
+            handled, generic = _handled(ov[1], names, ix, cls)
+            for recv, call in sorted(evaluated.items()):
+                key = '%s.%s:%s:%s' % (cls.module.short, cls.name, what, recv)
+                r.inst(key, sample='%s.%s overrides %s (defined in %s); evaluates %s' % (cls.module.short, cls.name, what, ov[0].name, recv))
+                attr = recv.split('.')[1]
+                if recv in handled or '*' in handled or recv in same or (generic and attr in subexprs):
+                    continue
+                r.violate(key, cls.module.rel, ov[1].lineno,
+                          '%s.generate_evaluation_code evaluates %s, but %s.%s (which replaces the inherited walk over subexprs) never calls %s.%s(code)%s: %s'
+                          % (cls.name, recv, ov[0].name, what, recv, what,
+                             '' if not generic else ' and %s is not in subexprs' % attr,
+                             'the reference held by that sub-expression\'s temporary is never released' if what == 'generate_disposal_code' else 'its temporaries are never handed back'))
+    pcf = ast.parse('def generate_disposal_code(self, code):\n    self.key.generate_disposal_code(code)\n').body[0]
+    h, g = _handled(pcf, _DISP, _MiniIndex(ast.parse('class K:\n    pass\n')), None)
+    r.positive_control(h == {'self.key'} and not g and 'self.value' not in h, 'an override that disposes of self.key only (self.value evaluated by the class)')
+    return r
+
+
+# ====================================================================================== C35-ERRLBL (fourth round)
+def rule_errlabel(ctx):
+    """Every function-level generator that places the function's own error label releases ALL managed temps behind it, NULL-safely."""
+    r = Rule('C35-ERRLBL', 'behind the error label of a C function (put_label(code.error_label) of a function-level generator) every managed temp is released with a NULL-safe decref: '
+                           'for cname, type in <funcstate>.all_managed_temps(): put_xdecref(cname, type)', floor=3)
+    ix = ctx.index
+    for m, qn, owner, fn in _gen_functions(ctx):
+        for blk in _blocks(fn):
+            for i, st in enumerate(blk):
+                call = _label_call(st)
+                if call is None:
+                    continue
+                # a nested error label (code.new_error_label() earlier in the function) is not the function's exit
+                if any(isinstance(c, ast.Call) and isinstance(c.func, ast.Attribute) and c.func.attr == 'new_error_label' and c.lineno < st.lineno for c in _walk_no_nested(fn)):
+                    continue
+                key = '%s.%s:error-label' % (m.short, qn)
+                r.inst(key, sample='%s places its error label at line %d' % (m.short + '.' + qn, st.lineno))
+                prob = _errlabel_problem(fn, _inline_helpers(blk[i + 1:], ix, owner))
+                if prob:
+                    r.violate(key, m.rel, st.lineno, '%s places the error label of the C function but %s: temporaries that hold a reference when an operation fails are %s'
+                              % (qn, prob[0], prob[1]))
+    pc = ast.parse('def g(self, code):\n    code.put_label(code.error_label)\n    for cname, type in code.funcstate.temps_holding_reference():\n        code.put_xdecref(cname, type)\n').body[0]
+    r.positive_control(_errlabel_problem(pc, pc.body[1:]) is not None, 'cleanup iterating temps_holding_reference() instead of all_managed_temps()')
+    return r
+
+
+def _inline_helpers(stmts, ix, owner):
+    """statement list with the bodies of helper methods called as plain statements (`self.helper(...)` of the same class,
+    `code.helper(...)` of CCodeWriter) spliced in behind the call (one level): extracting a helper must not hide a cleanup loop."""
+    out = []
+    for st in stmts:
+        out.append(st)
+        if isinstance(st, ast.Expr) and isinstance(st.value, ast.Call) and isinstance(st.value.func, ast.Attribute) and isinstance(st.value.func.value, ast.Name):
+            recv, name = st.value.func.value.id, st.value.func.attr
+            got = None
+            if recv == 'self' and owner is not None:
+                got = ix.find_method(owner, name)
+            elif recv.endswith('code'):
+                try:
+                    got = ix.find_method(ix.cls('Code', 'CCodeWriter'), name)
+                except Exception:
+                    got = None
+            if got is not None and len(got[1].body) < 40:
+                out.extend(got[1].body)
+    return out
+
+
+def _blocks(fn):
+    for n in ast.walk(fn):
+        for f in ('body', 'orelse', 'finalbody'):
+            b = getattr(n, f, None)
+            if isinstance(b, list) and b and isinstance(b[0], ast.stmt):
+                yield b
+
+
+def _label_call(st):
+    if isinstance(st, ast.Expr) and isinstance(st.value, ast.Call) and isinstance(st.value.func, ast.Attribute) and st.value.func.attr == 'put_label' and st.value.args:
+        a = st.value.args[0]
+        if isinstance(a, ast.Attribute) and a.attr == 'error_label':
+            return st.value
+    return None
+
+
+def _errlabel_problem(fn, following):
+    local = {}
+    for n in _walk_no_nested(fn):
+        if isinstance(n, ast.Assign) and len(n.targets) == 1 and isinstance(n.targets[0], ast.Name):
+            local.setdefault(n.targets[0].id, []).append(n.value)
+
+    def source(it):
+        if isinstance(it, ast.Name) and len(local.get(it.id, [])) == 1:
+            return source(local[it.id][0])
+        if isinstance(it, ast.Call) and isinstance(it.func, ast.Name) and it.func.id in ('list', 'sorted', 'tuple', 'reversed') and it.args:
+            return source(it.args[0])
+        if isinstance(it, ast.Call) and isinstance(it.func, ast.Attribute):
+            return it.func.attr
+        return None
+    seen_other = None
+    for st in following:
+        if _label_call(st) is not None:
+            break
+        for n in ([st] if isinstance(st, ast.For) else []):
+            src = source(n.iter)
+            if src is None or 'temps' not in src:
+                continue
+            if src != 'all_managed_temps':
+                seen_other = src
+                continue
+            tgt = n.target.elts[0].id if isinstance(n.target, ast.Tuple) and n.target.elts and isinstance(n.target.elts[0], ast.Name) else None
+            rel = [c for c in ast.walk(n) if isinstance(c, ast.Call) and isinstance(c.func, ast.Attribute) and re.match(r'^put_x?decref(_clear)?$', c.func.attr)
+                   and c.args and isinstance(c.args[0], ast.Name) and c.args[0].id == tgt]
+            if not rel:
+                return ('the loop over all_managed_temps() releases nothing', 'leaked')
+            if any(not c.func.attr.startswith('put_xdecref') for c in rel):
+                return ('releases them with the NULL-unsafe %s' % rel[0].func.attr, 'released correctly, but every temp that is unset (NULL) at that moment is dereferenced: crash')
+            return None
+    if seen_other:
+        return ('iterates %s() instead of all_managed_temps()' % seen_other, 'leaked (temps released by the end of code generation are skipped although they are live at the failing operation)')
+    return ('no loop over all_managed_temps() follows the label', 'leaked')
+
+
+# ====================================================================================== C35-ARGPAIR / C35-TEMPKEY: a tiny boolean decision-table evaluator
+class Table:
+    """Decision table of a statement list over the truth of its atomic tests: for every assignment of the atoms, the set of
+    `marks` (client-defined labels of calls) executed before the block ends / `continue` / `return`.  `x not in y` and
+    `x is not None` are the negations of the atoms `x in y` / `x is None`."""
+
+    def __init__(self, stmts, mark, fixed=None, seq=False, mark_stmt=None):
+        self.stmts, self.mark, self.fixed, self.seq, self.mark_stmt = stmts, mark, dict(fixed or {}), seq, mark_stmt
+        self.atoms = []
+        for s in stmts:
+            self._collect(s)
+
+    def _atom(self, e):
+        """-> (text, negated) for an atomic test"""
+        if isinstance(e, ast.Compare) and len(e.ops) == 1:
+            op = e.ops[0]
+            if isinstance(op, (ast.NotIn, ast.IsNot, ast.NotEq)):
+                pos = ast.Compare(left=e.left, ops=[{ast.NotIn: ast.In, ast.IsNot: ast.Is, ast.NotEq: ast.Eq}[type(op)]()], comparators=e.comparators)
+                return ' '.join(ast.unparse(pos).split()), True
+        return ' '.join(ast.unparse(e).split()), False
+
+    def _collect_test(self, e):
+        if isinstance(e, ast.BoolOp):
+            for v in e.values:
+                self._collect_test(v)
+        elif isinstance(e, ast.UnaryOp) and isinstance(e.op, ast.Not):
+            self._collect_test(e.operand)
+        else:
+            t, _ = self._atom(e)
+            if t not in self.atoms and t not in self.fixed:
+                self.atoms.append(t)
+
+    def _collect(self, s):
+        if isinstance(s, ast.If):
+            self._collect_test(s.test)
+            for x in s.body + s.orelse:
+                self._collect(x)
+        elif isinstance(s, (ast.For, ast.While, ast.With, ast.Try)):
+            for x in getattr(s, 'body', []) + getattr(s, 'orelse', []) + getattr(s, 'finalbody', []):
+                self._collect(x)
+
+    def _ev(self, e, val):
+        if isinstance(e, ast.BoolOp):
+            vs = [self._ev(v, val) for v in e.values]
+            return all(vs) if isinstance(e.op, ast.And) else any(vs)
+        if isinstance(e, ast.UnaryOp) and isinstance(e.op, ast.Not):
+            return not self._ev(e.operand, val)
+        t, neg = self._atom(e)
+        return val[t] != neg
+
+    def _run(self, stmts, val, marks):
+        """-> 'next' | 'stop'"""
+        for s in stmts:
+            if isinstance(s, ast.If):
+                res = self._run(s.body if self._ev(s.test, val) else s.orelse, val, marks)
+                if res == 'stop':
+                    return 'stop'
+            elif isinstance(s, (ast.Continue, ast.Return, ast.Break, ast.Raise)):
+                if isinstance(s, ast.Raise):
+                    marks.append('#raise') if self.seq else marks.add('#raise')
+                return 'stop'
+            elif isinstance(s, (ast.For, ast.While, ast.With, ast.Try)):
+                for c in ast.walk(s):
+                    if isinstance(c, ast.Call) and self.mark(c):
+                        raise AnalysisError('decision table: a marked call sits inside a nested %s' % type(s).__name__)
+            else:
+                if self.mark_stmt is not None:
+                    mk = self.mark_stmt(s)
+                    if mk:
+                        marks.append(mk) if self.seq else marks.add(mk)
+                calls = [c for c in ast.walk(s) if isinstance(c, ast.Call)]
+                calls.sort(key=lambda c: (c.end_lineno, c.end_col_offset))      # evaluation order of nested / sequential calls
+                for c in calls:
+                    mk = self.mark(c)
+                    if mk:
+                        marks.append(mk) if self.seq else marks.add(mk)
+        return 'next'
+
+    def rows(self, max_atoms=10):
+        if len(self.atoms) > max_atoms:
+            raise AnalysisError('decision table with %d atoms' % len(self.atoms))
+        for bits in itertools.product((False, True), repeat=len(self.atoms)):
+            val = dict(zip(self.atoms, bits))
+            val.update(self.fixed)
+            marks = [] if self.seq else set()
+            self._run(self.stmts, val, marks)
+            yield val, marks
+
+
+def _entry_mark(var):
+    def mark(c):
+        if isinstance(c.func, ast.Attribute) and c.args and isinstance(c.args[0], ast.Name) and c.args[0].id == var:
+            a = c.func.attr
+            if re.match(r'^put_var_x?incref(_memoryviewslice)?$', a):
+                return 'incref'
+            if re.match(r'^put_var_x?decref(_clear)?$', a):
+                return 'decref'
+        return None
+    return mark
+
+
+def argpair_problems(fn, body_call='generate_function_body', ix=None, owner=None):
+    """-> (n rows compared, [(class, flags text, entry marks, exit marks)])"""
+    split = None
+    for n in _walk_no_nested(fn):
+        if isinstance(n, ast.Call) and isinstance(n.func, ast.Attribute) and n.func.attr == body_call:
+            split = n.lineno
+    if split is None:
+        raise AnalysisError('C35-ARGPAIR: no call of %s in %s' % (body_call, fn.name))
+    loops = {('arg', 'entry'): [], ('arg', 'exit'): [], ('var', 'entry'): [], ('var', 'exit'): []}
+    cands = [(n, n.lineno) for n in _walk_no_nested(fn) if isinstance(n, ast.For)]
+    if ix is not None and owner is not None:
+        # loops moved into a helper method of the same class count at the position of the call
+        for c in _walk_no_nested(fn):
+            if isinstance(c, ast.Call) and isinstance(c.func, ast.Attribute) and isinstance(c.func.value, ast.Name) and c.func.value.id == 'self' and c.func.attr != body_call:
+                got = ix.find_method(owner, c.func.attr)
+                if got is not None and got[1] is not fn and len(got[1].body) < 40:
+                    cands.extend((n, c.lineno) for n in _walk_no_nested(got[1]) if isinstance(n, ast.For))
+    for n, line in cands:
+        if isinstance(n.target, ast.Name):
+            names = {x.attr for x in ast.walk(n.iter) if isinstance(x, ast.Attribute)} | {x.id for x in ast.walk(n.iter) if isinstance(x, ast.Name)}
+            kinds = names & {'arg_entries', 'var_entries'}
+            if len(kinds) != 1:
+                continue
+            mk = _entry_mark(n.target.id)
+            if not any(isinstance(c, ast.Call) and mk(c) for c in ast.walk(n)):
+                continue
+            loops[('arg' if 'arg_entries' in kinds else 'var', 'entry' if line < split else 'exit')].append(n)
+    probs, nrows = [], 0
+    for cls in ('arg', 'var'):
+        ent, ext = loops[(cls, 'entry')], loops[(cls, 'exit')]
+        if not ent or not ext:
+            if cls == 'arg' or ent:
+                raise AnalysisError('C35-ARGPAIR: %s loops over lenv.%s_entries with reference-count emissions: entry %d, exit %d' % (fn.name, cls, len(ent), len(ext)))
+            continue
+
+        def norm_loop(loop):
+            # rename the loop variable to `entry` so that both sides share their atoms
+            v = loop.target.id
+            class Ren(ast.NodeTransformer):
+                def visit_Name(self, node):
+                    return ast.copy_location(ast.Name(id='entry', ctx=node.ctx), node) if node.id == v else node
+            import copy
+            return [Ren().visit(copy.deepcopy(s)) for s in loop.body]
+        fixed = {}
+        if cls == 'var':
+            fixed = {'entry.is_arg': True, 'entry.used': True, 'entry.type.needs_refcounting': True}
+        tabs_e = [Table(norm_loop(l), _entry_mark('entry'), fixed) for l in ent]
+        tabs_x = [Table(norm_loop(l), _entry_mark('entry'), fixed) for l in ext]
+        atoms = []
+        for t in tabs_e + tabs_x:
+            for a in t.atoms:
+                if a not in atoms:
+                    atoms.append(a)
+        if len(atoms) > 10:
+            raise AnalysisError('C35-ARGPAIR: %d atoms' % len(atoms))
+        for bits in itertools.product((False, True), repeat=len(atoms)):
+            val = dict(zip(atoms, bits))
+            val.update(fixed)
+            me, mx = set(), set()
+            for t in tabs_e:
+                t._run(t.stmts, val, me)
+            for t in tabs_x:
+                t._run(t.stmts, val, mx)
+            nrows += 1
+            inc, dec = 'incref' in me, 'decref' in mx
+            if inc != dec:
+                probs.append((cls, ', '.join('%s=%s' % (a, val[a]) for a in atoms), inc, dec))
+    return nrows, probs
+
+
+def rule_argpair(ctx):
+    ix = ctx.index
+    r = Rule('C35-ARGPAIR', 'FuncDefNode.generate_function_definitions: an argument entry is incref\'ed before the body exactly when it is decref\'ed at the function exit '
+                            '(decision tables of the lenv.arg_entries / lenv.var_entries loops on both sides of generate_function_body, over all flag combinations)', floor=100)
+    cls = ix.cls('Nodes', 'FuncDefNode')
+    got = ix.find_method(cls, 'generate_function_definitions')
+    if got is None:
+        raise AnalysisError('FuncDefNode.generate_function_definitions vanished')
+    n, probs = argpair_problems(got[1], ix=ix, owner=got[0])
+    for i in range(n):
+        r.inst('argpair:row%d' % i)
+    seen = set()
+    for c, flags, inc, dec in probs:
+        k = (c, inc)
+        if k in seen:
+            continue
+        seen.add(k)
+        r.violate('Nodes.FuncDefNode.generate_function_definitions:%s_entries:%s' % (c, 'leak' if inc else 'over-release'), 'Cython/Compiler/Nodes.py', got[1].lineno,
+                  'for an entry of lenv.%s_entries with %s the function %s: %s' % (
+                      c, flags, 'emits an incref before the body but no decref at the exit' if inc else 'emits a decref at the exit without an incref before the body',
+                      'one reference to the argument leaks per call' if inc else 'the caller\'s (borrowed) reference is released: the object can be freed while still referenced'))
+    pc = ast.parse('''
+def generate_function_definitions(self, env, code):
+    for entry in lenv.arg_entries:
+        if (acquire_gil or entry.cf_is_reassigned) and not entry.in_closure:
+            code.put_var_incref(entry)
+    self.generate_function_body(env, code)
+    for entry in lenv.arg_entries:
+        if entry.in_closure:
+            continue
+        if not entry.cf_is_reassigned:
+            continue
+        code.put_var_xdecref(entry)
+''').body[0]
+    r.positive_control(bool(argpair_problems(pc)[1]), 'exit side forgets the acquire_gil case')
+    return r
+
+
+def rule_tempkey(ctx):
+    ix = ctx.index
+    r = Rule('C35-TEMPKEY', 'FunctionState temp free lists: a reused temp leaves the free set, a released temp enters it on every path, and temps_in_use() lists exactly the temps that are not in it', floor=4)
+    cls = ix.cls('Code', 'FunctionState')
+    rel = 'Cython/Compiler/Code.py'
+
+    def method(name):
+        got = ix.find_method(cls, name)
+        if got is None:
+            raise AnalysisError('FunctionState.%s vanished' % name)
+        return got[1]
+
+    def sub_of(e, idx):
+        """e is `<name>[idx]` -> name"""
+        if isinstance(e, ast.Subscript) and isinstance(e.value, ast.Name) and isinstance(e.slice, ast.Constant) and e.slice.value == idx:
+            return e.value.id
+        return None
+    # ---- (1) allocate_temp: X = F[0].pop()  =>  F[1].remove(X) later in the same block
+    fn = method('allocate_temp')
+    n_pop = 0
+    for blk in _blocks(fn):
+        for i, st in enumerate(blk):
+            if isinstance(st, ast.Assign) and len(st.targets) == 1 and isinstance(st.targets[0], ast.Name) and isinstance(st.value, ast.Call) and \
+                    isinstance(st.value.func, ast.Attribute) and st.value.func.attr == 'pop' and sub_of(st.value.func.value, 0):
+                n_pop += 1
+                F, X = sub_of(st.value.func.value, 0), st.targets[0].id
+                r.inst('tempkey:allocate:reuse', sample='allocate_temp reuses %s = %s[0].pop()' % (X, F))
+                ok = False
+                for later in blk[i + 1:]:
+                    for c in ast.walk(later):
+                        if isinstance(c, ast.Call) and isinstance(c.func, ast.Attribute) and c.func.attr in ('remove', 'discard') and sub_of(c.func.value, 1) == F and \
+                                c.args and isinstance(c.args[0], ast.Name) and c.args[0].id == X:
+                            ok = True
+                if not ok:
+                    r.violate('Code.FunctionState.allocate_temp:reuse', rel, st.lineno,
+                              'allocate_temp takes a temp from the free list (%s = %s[0].pop()) but does not remove it from the free SET %s[1]: temps_in_use() / temps_holding_reference() '
+                              'treat the live temp as free, so `return`, `yield` and try/finally do not release or save its reference, and the next release_temp() raises' % (X, F, F))
+    if n_pop == 0:
+        raise AnalysisError('C35-TEMPKEY: allocate_temp no longer reuses temps through <freelist>[0].pop()')
+    # ---- (2) release_temp: <F>[1].add(name) on every non-raising path
+    fn = method('release_temp')
+    pname = fn.args.args[1].arg
+
+    def mark_add(c):
+        if isinstance(c.func, ast.Attribute) and c.func.attr == 'add' and sub_of(c.func.value, 1) and c.args and isinstance(c.args[0], ast.Name) and c.args[0].id == pname:
+            return 'add'
+        return None
+    t = Table(fn.body, mark_add)
+    nrow = 0
+    for val, marks in t.rows():
+        nrow += 1
+        if '#raise' in marks:
+            continue
+        if 'add' not in marks:
+            r.violate('Code.FunctionState.release_temp:free-set', rel, fn.lineno,
+                      'release_temp(%s) does not add the name to the free set on the path %s: the temp stays "in use" for ever (it is released again at every return / yield)' % (pname, {k: v for k, v in val.items()}))
+            break
+    r.inst('tempkey:release', sample='release_temp: %d paths' % nrow)
+    # ---- (3) temps_in_use: listed  <=>  no free list yet or not in the free set
+    fn = method('temps_in_use')
+    loops = [n for n in _walk_no_nested(fn) if isinstance(n, ast.For)]
+    if len(loops) != 1:
+        raise AnalysisError('C35-TEMPKEY: temps_in_use has %d loops' % len(loops))
+
+    def mark_app(c):
+        if isinstance(c.func, ast.Attribute) and c.func.attr == 'append':
+            return 'listed'
+        return None
+    t = Table(loops[0].body, mark_app)
+    none_atoms = [a for a in t.atoms if re.fullmatch(r'\w+ is None', a)]
+    in_atoms = [a for a in t.atoms if re.fullmatch(r'\w+ in \w+\[1\]', a)]
+    if len(none_atoms) != 1 or len(in_atoms) != 1 or len(t.atoms) != 2:
+        raise AnalysisError('C35-TEMPKEY: temps_in_use tests %s; expected one `<freelist> is None` and one `<name> in <freelist>[1]`' % t.atoms)
+    for val, marks in t.rows():
+        if val[none_atoms[0]] and val[in_atoms[0]]:
+            continue          # infeasible: no list to be in
+        want = val[none_atoms[0]] or not val[in_atoms[0]]
+        r.inst('tempkey:in-use:%s' % sorted(val.items()))
+        if ('listed' in marks) != want:
+            r.violate('Code.FunctionState.temps_in_use', rel, fn.lineno,
+                      'temps_in_use() %s a temp for which %s: %s' % ('omits' if want else 'lists', ', '.join('%s is %s' % kv for kv in sorted(val.items())),
+                                                                 'a live temp is not released at `return` / not saved across `yield`' if want else 'a free temp is released again'))
+    pc = ast.parse('def f(self):\n    for name in xs:\n        if freelist is not None and name not in freelist[1]:\n            used.append(name)\n').body[0]
+    tp = Table(pc.body[0].body, mark_app)
+    bad = [v for v, mk in tp.rows() if not (v['freelist is None'] and v['name in freelist[1]']) and ('listed' in mk) != (v['freelist is None'] or not v['name in freelist[1]'])]
+    r.positive_control(bool(bad), '`freelist is not None and name not in freelist[1]`')
+    return r
+
+
+# ====================================================================================== C35-TEMPEND (fourth round)
+class _Collector:
+    """stands in for a Rule when the end-of-life checks run on the embedded positive example"""
+
+    def __init__(self):
+        self.found = []
+
+    def inst(self, *a, **k):
+        pass
+
+    def violate(self, construct, *a, **k):
+        self.found.append(construct)
+
+
+TEMPEND_POSITIVE = '''
+class ExprNode:
+    def generate_disposal_code(self, code):
+        if self.is_temp:
+            if self.result():
+                code.put_decref(self.result(), self.ctype())
+        else:
+            self.generate_subexpr_disposal_code(code)
+
+    def generate_post_assignment_code(self, code):
+        if self.is_temp:
+            if self.type.is_pyobject:
+                code.putln("%s = 0;" % self.result())
+            elif self.type.is_memoryviewslice:
+                code.putln("%s.memview = NULL;" % self.result())
+                code.putln("%s.data = NULL;" % self.result())
+        else:
+            self.generate_subexpr_disposal_code(code)
+'''
+
+
+def rule_tempend(ctx):
+    """End-of-life protocol of a temp result in ExprNode: disposal releases AND clears it, a hand-over (post-assignment) clears it without
+    releasing, a borrowed result is not released.  The function-level error label XDECREFs every managed temp, so a temp that is not
+    reset when its reference goes away is released twice."""
+    ix = ctx.index
+    r = Rule('C35-TEMPEND', 'ExprNode.generate_disposal_code / generate_post_assignment_code over (is_temp, use_borrowed_ref, string-like, object / memoryview result): an owned temp is '
+                            'released with a clearing decref, a borrowed one is not released, a handed-over object temp is reset to 0 and not released', floor=4)
+    cls = ix.cls('ExprNodes', 'ExprNode')
+    _tempend_checks(lambda name: ix.find_method(cls, name), r)
+    mi = _MiniIndex(ast.parse(TEMPEND_POSITIVE))
+    col = _Collector()
+    _tempend_checks(lambda name: mi.find_method(mi.c, name), col)
+    r.positive_control(col.found == ['ExprNodes.ExprNode.generate_disposal_code:borrowed'] or 'ExprNodes.ExprNode.generate_disposal_code:clear' in col.found or
+                       any(c.endswith(':borrowed') or c.endswith(':clear') for c in col.found), 'disposal with a plain put_decref that ignores use_borrowed_ref')
+    return r
+
+
+def _tempend_checks(lookup, r):
+    rel = 'Cython/Compiler/ExprNodes.py'
+
+    def paths(name, point):
+        got = lookup(name)
+        if got is None:
+            raise AnalysisError('ExprNode.%s vanished' % name)
+        res = Fresh('self.result()')
+
+        def call_oracle(f, a, k):
+            if f == 'self.result':
+                return res
+            return NOTFOUND
+        ev = Evaluator(lambda p: point.get(p, NOTFOUND), call_oracle, what='ExprNode.' + name)
+        return got[1], res, [p for p in ev.run_function(got[1]) if p.kind != 'raise']
+
+    def releases(events, res):
+        return [e.name for e in events if isinstance(e, Call) and RELEASE.match(e.name) and e.args and e.args[0] is res]
+
+    def resets(events, res, field=None):
+        out = []
+        for e in events:
+            if isinstance(e, Call) and e.name in EMIT and e.args and isinstance(e.args[0], Str):
+                parts = e.args[0].parts
+                for i, p in enumerate(parts[:-1]):
+                    if p is res and isinstance(parts[i + 1], str) and re.match(r'^%s\s*=\s*(?:0|NULL)\s*;' % (re.escape('.' + field) if field else ''), parts[i + 1]):
+                        out.append(e)
+        return out
+    base = {'self.has_temp_moved': False, 'self.type.is_string': False, 'self.type.is_pyunicode_ptr': False}
+    # ---- disposal
+    for borrowed in (False, True):
+        point = dict(base, **{'self.is_temp': True, 'self.use_borrowed_ref': borrowed})
+        fn, res, ps = paths('generate_disposal_code', point)
+        key = 'tempend:disposal:is_temp:%s' % ('borrowed' if borrowed else 'owned')
+        r.inst(key, sample='%s: %d paths' % (key, len(ps)))
+        for p in ps:
+            rel_calls = releases(p.events, res)
+            if borrowed and rel_calls:
+                r.violate('ExprNodes.ExprNode.generate_disposal_code:borrowed', rel, fn.lineno, 'generate_disposal_code releases (%s) a temp result that only borrows its reference (use_borrowed_ref): '
+                          'the owner\'s reference is given away, the object is freed while still referenced' % rel_calls[0])
+                break
+            if not borrowed and not rel_calls:
+                r.violate('ExprNodes.ExprNode.generate_disposal_code:owned', rel, fn.lineno, 'generate_disposal_code does not release the owned temp result of an is_temp node on some path: the reference leaks')
+                break
+            if not borrowed and any(not n.endswith('_clear') for n in rel_calls):
+                r.violate('ExprNodes.ExprNode.generate_disposal_code:clear', rel, fn.lineno, 'generate_disposal_code releases the temp result with %s, which does not reset the variable: the error label of the '
+                          'function XDECREFs every managed temp, so a later failure releases the same reference a second time' % rel_calls[0])
+                break
+    point = dict(base, **{'self.is_temp': False})
+    fn, res, ps = paths('generate_disposal_code', point)
+    r.inst('tempend:disposal:not-temp')
+    if any(releases(p.events, res) for p in ps):
+        r.violate('ExprNodes.ExprNode.generate_disposal_code:not-temp', rel, fn.lineno, 'generate_disposal_code releases the result of a node that is not a temp (it does not own a reference)')
+    if not all(any(isinstance(e, Call) and e.name == 'generate_subexpr_disposal_code' for e in p.events) for p in ps):
+        r.violate('ExprNodes.ExprNode.generate_disposal_code:subexprs', rel, fn.lineno, 'generate_disposal_code of a non-temp node does not dispose of its sub-expressions (they were kept alive for the result): their references leak')
+    # ---- post assignment (ownership handed over)
+    for kind in ('object', 'memoryview'):
+        point = dict(base, **{'self.is_temp': True, 'self.type.is_pyobject': kind == 'object', 'self.type.is_memoryviewslice': kind == 'memoryview'})
+        fn, res, ps = paths('generate_post_assignment_code', point)
+        key = 'tempend:post-assignment:%s' % kind
+        r.inst(key, sample='%s: %d paths' % (key, len(ps)))
+        for p in ps:
+            if releases(p.events, res):
+                r.violate('ExprNodes.ExprNode.generate_post_assignment_code:%s:released' % kind, rel, fn.lineno, 'generate_post_assignment_code releases the temp whose reference was just handed to the assignment target: '
+                          'the target is left with a dead reference')
+                break
+            ok = resets(p.events, res) if kind == 'object' else (resets(p.events, res, 'memview') and resets(p.events, res, 'data'))
+            if not ok:
+                r.violate('ExprNodes.ExprNode.generate_post_assignment_code:%s:reset' % kind, rel, fn.lineno, 'generate_post_assignment_code does not reset the %s temp after its reference was handed to the assignment target: '
+                          'the error label of the function XDECREFs every managed temp, so a later failure releases the reference the target now owns' % kind)
+                break
+
+
+# ====================================================================================== C35-NANNY (fourth round)
+REFNANNY = 'Cython/Runtime/refnanny.pyx'
+
+
+def pyx_function(src, name):
+    """A `cdef ... name(args) ...:` function (module level or method) of a .pyx file as a Python FunctionDef: C declarations and casts removed."""
+    lines = src.split('\n')
+    start = None
+    for i, l in enumerate(lines):
+        if re.match(r'^\s*cdef\s+[^=]*\b%s\s*\(.*\)\s*(?:except[^:]*|noexcept)?\s*:\s*(?:#.*)?$' % re.escape(name), l):
+            start = i
+            break
+    if start is None:
+        raise AnalysisError('C35-NANNY: cdef function %s not found in refnanny.pyx' % name)
+    ind = len(lines[start]) - len(lines[start].lstrip())
+    params = []
+    for a in re.search(r'\((.*)\)', lines[start]).group(1).split(','):
+        a = a.split('=')[0].strip()
+        if a:
+            params.append(re.findall(r'[A-Za-z_]\w*', a)[-1])
+    body = []
+    for l in lines[start + 1:]:
+        if l.strip() and (len(l) - len(l.lstrip())) <= ind:
+            break
+        body.append(l)
+
+    def clean(l):
+        l = re.sub(r'<\s*[A-Za-z_][\w\s\*]*>', '', l)
+        l = re.sub(r'\bNULL\b', 'None', l)
+        l = re.sub(r'&(\w+)', r'\1', l)
+        m = re.match(r'^(\s+)cdef\s+(?:\([^)]*\)|[\w\*]+)\s+(.*)$', l)
+        if m:
+            rest = m.group(2)
+            if '=' in rest and ',' not in rest:
+                return m.group(1) + rest
+            return m.group(1) + 'pass'
+        return l
+    text = 'def %s(%s):\n%s\n' % (name, ', '.join(params), '\n'.join(clean(l)[ind:] if l.strip() else '' for l in body))
+    try:
+        return ast.parse(text).body[0], start + 1
+    except SyntaxError as e:
+        raise AnalysisError('C35-NANNY: %s of refnanny.pyx is not parsable after removing the C declarations: %s' % (name, e))
+
+
+class _Ret(Exception):
+    def __init__(self, v):
+        self.v = v
+
+
+class NannyInterp:
+    """Concrete interpretation of Context.regref / delref on a small model of the reference table: count in {0 (absent), 1, 2, 3}."""
+
+    def __init__(self, count, is_null):
+        self.count, self.is_null = count, is_null
+        self.stored, self.deleted, self.errors = None, False, 0
+
+    def run(self, fn):
+        env = {fn.args.args[0].arg: 'SELF'}
+        for a in fn.args.args[1:]:
+            env[a.arg] = 'ARG:' + a.arg
+        env['is_null'] = self.is_null
+        try:
+            self.block(fn.body, env)
+        except _Ret as rr:
+            return rr.v
+        return None
+
+    def block(self, stmts, env):
+        for s in stmts:
+            self.stmt(s, env)
+
+    def ev(self, e, env):
+        if isinstance(e, ast.Constant):
+            return e.value
+        if isinstance(e, ast.Name):
+            if e.id in env:
+                return env[e.id]
+            if e.id == 'NO_REFS':
+                return (0, None)
+            return 'GLOBAL:' + e.id
+        if isinstance(e, ast.Tuple):
+            return tuple(self.ev(x, env) for x in e.elts)
+        if isinstance(e, ast.List):
+            return ['LIST'] if not e.elts else [self.ev(x, env) for x in e.elts]
+        if isinstance(e, (ast.JoinedStr,)):
+            return 'TEXT'
+        if isinstance(e, ast.IfExp):
+            return self.ev(e.body if self.truth(e.test, env) else e.orelse, env)
+        if isinstance(e, ast.BinOp) and isinstance(e.op, (ast.Add, ast.Sub)):
+            a, b = self.ev(e.left, env), self.ev(e.right, env)
+            if isinstance(a, int) and isinstance(b, int):
+                return a + b if isinstance(e.op, ast.Add) else a - b
+            raise AnalysisError('C35-NANNY: arithmetic on %r and %r' % (a, b))
+        if isinstance(e, ast.Attribute):
+            return '%s.%s' % (self.ev(e.value, env), e.attr)
+        if isinstance(e, ast.Call):
+            f = e.func
+            if isinstance(f, ast.Name) and f.id == 'id':
+                return 'ID'
+            if isinstance(f, ast.Name) and f.id == 'log':
+                return 0
+            if isinstance(f, ast.Attribute):
+                recv = self.ev(f.value, env)
+                if recv == 'SELF.refs' and f.attr == 'get':
+                    key = self.ev(e.args[0], env)
+                    if key != 'ID':
+                        raise AnalysisError('C35-NANNY: reference table read with key %r' % (key,))
+                    if self.count == 0:
+                        return self.ev(e.args[1], env) if len(e.args) > 1 else None
+                    return (self.count, ['LN'])
+                if recv == 'SELF.errors' and f.attr == 'append':
+                    self.errors += 1
+                    return None
+                if f.attr == 'append' and isinstance(recv, list):
+                    return None
+            raise AnalysisError('C35-NANNY: call %s is not modelled' % ast.unparse(e)[:60])
+        if isinstance(e, ast.Compare) or isinstance(e, ast.BoolOp) or isinstance(e, ast.UnaryOp):
+            return self.truth(e, env)
+        raise AnalysisError('C35-NANNY: expression %s is not modelled' % ast.unparse(e)[:60])
+
+    def truth(self, e, env):
+        if isinstance(e, ast.UnaryOp) and isinstance(e.op, ast.Not):
+            return not self.truth(e.operand, env)
+        if isinstance(e, ast.BoolOp):
+            vs = [self.truth(v, env) for v in e.values]
+            return all(vs) if isinstance(e.op, ast.And) else any(vs)
+        if isinstance(e, ast.Compare) and len(e.ops) == 1:
+            a, b = self.ev(e.left, env), self.ev(e.comparators[0], env)
+            op = e.ops[0]
+            if isinstance(op, (ast.Is, ast.IsNot)):
+                return (a is b or (a is None and b is None)) == isinstance(op, ast.Is)
+            if isinstance(a, int) and isinstance(b, int):
+                return {ast.Eq: a == b, ast.NotEq: a != b, ast.Lt: a < b, ast.LtE: a <= b, ast.Gt: a > b, ast.GtE: a >= b}[type(op)]
+            raise AnalysisError('C35-NANNY: comparison %s is not modelled' % ast.unparse(e))
+        v = self.ev(e, env)
+        if isinstance(v, (bool, int)) or v is None:
+            return bool(v)
+        raise AnalysisError('C35-NANNY: truth of %s is not modelled' % ast.unparse(e))
+
+    def stmt(self, s, env):
+        if isinstance(s, ast.Expr):
+            self.ev(s.value, env)
+        elif isinstance(s, ast.Assign) and len(s.targets) == 1:
+            t = s.targets[0]
+            v = self.ev(s.value, env)
+            if isinstance(t, ast.Name):
+                env[t.id] = v
+            elif isinstance(t, ast.Tuple) and isinstance(v, tuple) and len(v) == len(t.elts):
+                for x, y in zip(t.elts, v):
+                    env[x.id] = y
+            elif isinstance(t, ast.Subscript) and self.ev(t.value, env) == 'SELF.refs' and self.ev(t.slice, env) == 'ID':
+                if not (isinstance(v, tuple) and len(v) == 2 and isinstance(v[0], int)):
+                    raise AnalysisError('C35-NANNY: value stored in the reference table is %r' % (v,))
+                self.stored = v[0]
+            else:
+                raise AnalysisError('C35-NANNY: assignment %s is not modelled' % ast.unparse(s)[:60])
+        elif isinstance(s, ast.Delete) and len(s.targets) == 1 and isinstance(s.targets[0], ast.Subscript) and self.ev(s.targets[0].value, env) == 'SELF.refs':
+            self.deleted = True
+        elif isinstance(s, ast.If):
+            self.block(s.body if self.truth(s.test, env) else s.orelse, env)
+        elif isinstance(s, ast.Return):
+            raise _Ret(self.ev(s.value, env) if s.value is not None else None)
+        elif isinstance(s, ast.Pass):
+            pass
+        else:
+            raise AnalysisError('C35-NANNY: statement %s is not modelled' % ast.unparse(s)[:60])
+
+
+def nanny_counter_problems(regref, delref):
+    probs, n = [], 0
+    for c in (0, 1, 2, 3):
+        n += 1
+        it = NannyInterp(c, False)
+        it.run(regref)
+        if it.errors or it.deleted or it.stored != c + 1:
+            probs.append(('regref', 'regref of an object held %d time(s) records %s (expected count %d, no error)' % (c, 'a deletion' if it.deleted else 'count %s, %d error(s)' % (it.stored, it.errors), c + 1)))
+        n += 1
+        it = NannyInterp(c, False)
+        ret = it.run(delref)
+        after = 0 if it.deleted else (it.stored if it.stored is not None else c)
+        if c == 0:
+            if ret or not it.errors or it.stored is not None or it.deleted:
+                probs.append(('delref', 'delref of an object the context does not hold returns %r with %d error(s): one decref too many must be reported and refused' % (ret, it.errors)))
+        elif not ret or it.errors or after != c - 1 or (c - 1 == 0) != it.deleted:
+            probs.append(('delref', 'delref of an object held %d time(s) returns %r, leaves count %d (%s), %d error(s); expected True, count %d%s, no error'
+                          % (c, ret, after, 'entry deleted' if it.deleted else 'entry kept', it.errors, c - 1, ' and the entry deleted' if c == 1 else '')))
+    for name, fn in (('regref', regref), ('delref', delref)):
+        n += 1
+        it = NannyInterp(1, True)
+        ret = it.run(fn)
+        if not it.errors or it.stored is not None or it.deleted or (name == 'delref' and ret):
+            probs.append((name, '%s of a NULL pointer must record an error, leave the table alone%s' % (name, ' and refuse the decref' if name == 'delref' else '')))
+    return n, probs
+
+
+NANNY_POSITIVE = '''
+def delref(self, obj, lineno, is_null):
+    if is_null:
+        self.errors.append("x")
+        return False
+    id_ = id(obj)
+    count, linenumbers = self.refs.get(id_, NO_REFS)
+    if count == 0:
+        self.errors.append("y")
+        return False
+    if count == 1:
+        del self.refs[id_]
+    else:
+        self.refs[id_] = (count, linenumbers)
+    return True
+'''
+
+
+def rule_nanny(ctx):
+    r = Rule('C35-NANNY', 'reference nanny: Context.regref / delref keep an exact count per object (model: held 0, 1, 2, 3 times, NULL), one decref too many is reported and refused; '
+                          'DECREF performs the decref only when delref allowed it, INCREF increfs and registers', floor=12)
+    src = ctx.read(REFNANNY)
+    regref, l1 = pyx_function(src, 'regref')
+    delref, l2 = pyx_function(src, 'delref')
+    n, probs = nanny_counter_problems(regref, delref)
+    for i in range(n):
+        r.inst('nanny:counter:%d' % i)
+    seen = set()
+    for name, what in probs:
+        if name in seen:
+            continue
+        seen.add(name)
+        r.violate('refnanny.Context.%s' % name, REFNANNY, l1 if name == 'regref' else l2, 'refnanny Context.%s: %s — the nanny then reports balanced code as leaking / over-released, or misses a real imbalance' % (name, what))
+    # ---- DECREF gate
+    dec, l3 = pyx_function(src, 'DECREF')
+
+    def mark(c):
+        if isinstance(c.func, ast.Name) and c.func.id in ('Py_XDECREF', 'Py_DECREF', 'Py_CLEAR'):
+            return 'decref'
+        return None
+    t = Table(dec.body, mark)
+    gate = [a for a in t.atoms if re.match(r'^GIVEREF_and_report\(', a)]
+    r.inst('nanny:DECREF:gate')
+    rows = list(t.rows())
+    if len(gate) != 1 or any(('decref' in mk) != val[gate[0]] for val, mk in rows):
+        r.violate('refnanny.DECREF', REFNANNY, l3, 'refnanny DECREF does not make the real decref depend on the verdict of GIVEREF_and_report(): a decref the nanny has identified as one too many is '
+                  'still performed (object freed while referenced), or a legitimate one is skipped')
+    inc, l4 = pyx_function(src, 'INCREF')
+    names = [c.func.id for c in ast.walk(inc) if isinstance(c, ast.Call) and isinstance(c.func, ast.Name)]
+    r.inst('nanny:INCREF')
+    if not ({'Py_XINCREF', 'Py_INCREF'} & set(names)) or 'GOTREF' not in names or any(isinstance(x, (ast.If, ast.While, ast.For)) for x in ast.walk(inc)):
+        r.violate('refnanny.INCREF', REFNANNY, l4, 'refnanny INCREF must incref the object and register the new reference (GOTREF) unconditionally')
+    giv, l5 = pyx_function(src, 'GIVEREF_and_report')
+    r.inst('nanny:GIVEREF_and_report')
+    rets = [x.value.id for x in ast.walk(giv) if isinstance(x, ast.Return) and isinstance(x.value, ast.Name)]
+    from_delref = {t.id for a in ast.walk(giv) if isinstance(a, ast.Assign) and isinstance(a.value, ast.Call) and isinstance(a.value.func, ast.Attribute) and a.value.func.attr == 'delref'
+                   for t in a.targets if isinstance(t, ast.Name)}
+    init_false = {t.id for a in giv.body if isinstance(a, ast.Assign) and isinstance(a.value, ast.Constant) and a.value.value in (False, 0) for t in a.targets if isinstance(t, ast.Name)}
+    final = [x for x in rets if x in from_delref]
+    if not final or not set(final) <= init_false:
+        r.violate('refnanny.GIVEREF_and_report', REFNANNY, l5, 'GIVEREF_and_report must return the verdict of ctx.delref() (and False when the bookkeeping itself failed)')
+    pc = ast.parse(NANNY_POSITIVE).body[0]
+    _, pp = nanny_counter_problems(regref, pc)
+    r.positive_control(any(nm == 'delref' for nm, _ in pp), 'delref that stores the unchanged count')
+    return r
